@@ -14,6 +14,7 @@ import EasyNet.Lemmas.BRUSpec
 import EasyNet.Lemmas.Fixed
 import EasyNet.Lemmas.Producer
 import EasyNet.Lemmas.JRawWs  -- raw JSON framer
+import EasyNet.Lemmas.GenericFrToy
 namespace EasyNet
 
 theorem RU.refines (sep : Bytes) (limit : Nat) (ke : Bool) (hsep : sep ≠ []) :
@@ -214,6 +215,186 @@ theorem C01_sep_producer_roundtrip (sep : Bytes) (limit : Nat) (hsep : sep ≠ [
 
 example : AutoSep.produce [124, 124] [97, 124] = .refused ∧ AutoSep.produce [124, 124] [97, 124, 98] = .chunk [97, 124, 98, 124, 124] := by
   decide +kernel
+
+-- ==== BEGIN generic framers ====
+/-! Generic framers (`FileBasedPacketSerializer`, `AbstractCompressorSerializer`; models in Model/GenericFr.lean).
+    The file loader is a parameter `load` subject to the laws `GenericFr.Stable` (+ `Progress`); a *frame* is a byte string
+    on which the loader decides (packet or expected error) exactly when all of it is there (`IsFrame`). -/
+section GenericFramers
+open GenericFr
+
+/-- **C01, file-based framers, copying consumer.**  For every loader satisfying the laws, every list of frames each of
+    which loads as a packet exactly at its own end, and *every* way of cutting the stream into reads of at most `m` bytes
+    (empty reads allowed) with `|frame| + m ≤ limit + 1` (exact; the safe zone `|frame| + m ≤ limit` of the C07 table is
+    the slightly stronger round form), the consumer delivers exactly
+    those frames, in order, once each, reports no error, and retains nothing. -/
+theorem C01_generic_copy_roundtrip (load : Bytes → LoadRes) (S : Stable load) (P : Progress load) (limit m : Nat)
+    (fs : List Bytes) (hfs : ∀ f ∈ fs, IsFrame load f) (hok : ∀ f ∈ fs, load f = .ok f.length)
+    (hsafe : ∀ f ∈ fs, f.length + m ≤ limit + 1)
+    (chunks : List Bytes) (hm : ∀ c ∈ chunks, c.length ≤ m) (hcut : chunks.flatten = fs.flatten) :
+    (Consumer.run GenericFr.init (feed load limit) Consumer.new chunks).2 = fs.map (fun f => Item.frame (okTag :: f)) ∧
+    Consumer.held (·.buf) (Consumer.run GenericFr.init (feed load limit) Consumer.new chunks).1 = [] := by
+  have R := feed_refines load limit
+  have hsim := Consumer.run_ref R chunks Consumer.new [] (Or.inl ⟨rfl, rfl⟩)
+  have href := refRun_frames load S P limit m chunks hm fs hfs hsafe [] (Or.inl rfl) (by simpa using hcut)
+  rw [href] at hsim
+  constructor
+  · rw [hsim.1]
+    apply List.map_congr_left
+    intro f hf
+    simp [frameItem, hok f hf]
+  · rcases hsim.2 with ⟨hfr, hbuf⟩ | ⟨s, hfr, hbuf, hinv, _⟩
+    · simp [Consumer.held, hfr, hbuf]
+    · simp only [Consumer.held, hfr]
+      exact hinv.1
+
+/-- **C01, file-based framers, buffer-filling consumer** (buffer of `min(sizehint, limit)` bytes as allocated by
+    `create_deserializer_buffer`).  Same statement for every history of non-empty fills that fit the write buffer offered
+    at that moment, under the safe-zone condition `|frame| + min(sizehint, limit) ≤ limit + 1`; nothing is retained: no
+    re-injected remainder is pending and a suspended framer, if any, holds no byte. -/
+theorem C01_generic_buffered_roundtrip (load : Bytes → LoadRes) (S : Stable load) (P : Progress load)
+    (limit hint : Nat) (hlimit : 0 < limit) (hhint : 0 < hint)
+    (fs : List Bytes) (hfs : ∀ f ∈ fs, IsFrame load f) (hok : ∀ f ∈ fs, load f = .ok f.length)
+    (hsafe : ∀ f ∈ fs, f.length + bufCap limit hint ≤ limit + 1)
+    (fills : List Bytes) (hcut : fills.flatten = fs.flatten)
+    (r : BufConsumer GenericFr.State × List Item)
+    (hrun : BufConsumer.runFills GenericFr.init 0 (bufCap limit hint) (bfeed load limit) BufConsumer.new fills = some r) :
+    r.2 = fs.map (fun f => Item.frame (okTag :: f)) ∧ r.1.crashed = false ∧ r.1.written = 0 ∧
+    (∀ s, r.1.fr = some s → s.buf = []) := by
+  have hcap : 0 < bufCap limit hint := by unfold bufCap; omega
+  have F := feed_fits load S limit
+  rw [bfeed_eq] at hrun
+  have hsim := runFills_sim (bufCap limit hint) hcap F fills BufConsumer.new Consumer.new
+    (sim_new _ _ _) r hrun
+  have hlen := runFills_len (bufCap limit hint) hcap F fills BufConsumer.new Consumer.new (sim_new _ _ _) r hrun
+  have hcopy := C01_generic_copy_roundtrip load S P limit (bufCap limit hint) fs hfs hok hsafe fills hlen hcut
+  refine ⟨by rw [hsim.1, hcopy.1], hsim.2.1, ?_, ?_⟩
+  · -- nothing re-injected: the copying consumer's buffer is empty
+    obtain ⟨_, _, hwle, hcb, hcase⟩ := hsim.2
+    have hheld := hcopy.2
+    rcases hcase with ⟨_, hw, _⟩ | ⟨s, _, _, _, _, hc⟩
+    · exact hw
+    · rcases hc with ⟨_, hw⟩ | ⟨hcfr, _⟩
+      · exact hw
+      · simp only [Consumer.held, hcfr] at hheld
+        rw [hheld] at hcb
+        have : (List.take r.1.written r.1.buffer).length = 0 := by rw [← hcb]; rfl
+        simp only [List.length_take] at this
+        omega
+  · intro s hs
+    obtain ⟨_, _, _, _, hcase⟩ := hsim.2
+    have hheld := hcopy.2
+    rcases hcase with ⟨hfr, _, _⟩ | ⟨s', hfr, _, _, hg, hc⟩
+    · rw [hfr] at hs; cases hs
+    · rw [hfr] at hs; injection hs with hs; subst hs
+      rcases hc with ⟨hcfr, _⟩ | ⟨_, hinit⟩
+      · simpa [Consumer.held, hcfr] using hheld
+      · rw [hinit]; rfl
+
+/-- non-vacuity, on the exact edge of the zone (toy length-prefixed loader, limit 8, reads of at most 3 bytes, two frames
+    of 6 bytes: `6 + 3 = limit + 1`), cut so that reads carry the tail of one frame and the head of the next; the third
+    read brings the accumulated bytes to exactly 8 -/
+example : Stable toyLoad ∧ Progress toyLoad ∧
+    (∀ f ∈ ([[5, 1, 2, 3, 4, 5], [5, 6, 7, 8, 9, 10]] : List Bytes),
+      IsFrameD toyLoad f ∧ toyLoad f = .ok f.length ∧ f.length + 3 ≤ 8 + 1) ∧
+    (∀ c ∈ ([[5, 1], [2, 3, 4], [5, 5, 6], [7, 8, 9], [10]] : List Bytes), c.length ≤ 3) ∧
+    ([[5, 1], [2, 3, 4], [5, 5, 6], [7, 8, 9], [10]] : List Bytes).flatten
+      = ([[5, 1, 2, 3, 4, 5], [5, 6, 7, 8, 9, 10]] : List Bytes).flatten ∧
+    (Consumer.run GenericFr.init (feed toyLoad 8) Consumer.new [[5, 1], [2, 3, 4], [5, 5, 6], [7, 8, 9], [10]]).2
+      = [.frame (okTag :: [5, 1, 2, 3, 4, 5]), .frame (okTag :: [5, 6, 7, 8, 9, 10])] ∧
+    (BufConsumer.runFills GenericFr.init 0 (bufCap 8 3) (bfeed toyLoad 8) BufConsumer.new
+        [[5, 1], [2, 3, 4], [5, 5, 6], [7, 8, 9], [10]]).map (·.2)
+      = some [.frame (okTag :: [5, 1, 2, 3, 4, 5]), .frame (okTag :: [5, 6, 7, 8, 9, 10])] :=
+  ⟨toyLoad_stable, toyLoad_progress, by decide +kernel, by decide +kernel, by decide +kernel, by decide +kernel,
+   by decide +kernel⟩
+
+/-- **C01, producer side of the file-based serializers.**  `incremental_serialize` yields nothing at all for an empty
+    dump — the documented exclusion ("packets the producer encodes to nothing are outside `Valid`") — and exactly the
+    dump otherwise, so the stream of packets with non-empty dumps is the concatenation of the dumps (which is what the
+    round-trip theorems take as frames), and `serialize` is the join of the chunks. -/
+theorem C01_generic_producer_nothing_when_empty :
+    produce [] = [] ∧
+    (∀ dump : Bytes, dump ≠ [] → produce dump = [dump]) ∧
+    (∀ dump : Bytes, (produce dump).flatten = serialize dump) ∧
+    (∀ dumps : List Bytes, (dumps.flatMap produce).flatten = dumps.flatten) := by
+  have h2 : ∀ dump : Bytes, dump ≠ [] → produce dump = [dump] := by
+    intro dump hd
+    have : dump.length ≠ 0 := by
+      intro h; exact hd (List.eq_nil_of_length_eq_zero h)
+    simp [produce, this]
+  have h3 : ∀ dump : Bytes, (produce dump).flatten = serialize dump := by
+    intro dump
+    by_cases hd : dump = []
+    · subst hd; simp [produce, serialize]
+    · rw [h2 dump hd]; simp [serialize]
+  refine ⟨by simp [produce], h2, h3, ?_⟩
+  intro dumps
+  induction dumps with
+  | nil => rfl
+  | cons d ds ih =>
+    simp only [List.flatMap_cons, List.flatten_append, List.flatten_cons, ih, h3 d, serialize]
+
+/-- the compressor's producer: two chunks (the first possibly empty) whose join is `serialize` -/
+theorem C01_generic_compressor_producer (comp : Bytes → Bytes × Bytes) (data : Bytes) :
+    (cproduce comp data).length = 2 ∧ (cproduce comp data).flatten = cserialize comp data := by
+  simp [cproduce, cserialize]
+
+/-- **C01, compressor framers — partial.**  Proved for a decompressor whose view as a loader (`loadOf dec`) satisfies
+    the laws on ALL byte strings, which excludes decompressors that can report an error (`DecRes.corrupt` drops
+    everything received, which is not extension-stable).  Missing: the same statement with the laws relativised to the
+    prefixes of the stream at hand (then real zlib/bz2 qualify).  Both receive paths. -/
+theorem C01_generic_compressor_roundtrip_partial (dec : Bytes → DecRes) (S : Stable (loadOf dec)) (P : Progress (loadOf dec))
+    (fs : List Bytes) (hfs : ∀ f ∈ fs, IsFrame (loadOf dec) f) (hok : ∀ f ∈ fs, loadOf dec f = .ok f.length)
+    (chunks : List Bytes) (hcut : chunks.flatten = fs.flatten) :
+    (Consumer.run cinit (cfeed dec) Consumer.new chunks).2 = fs.map (fun f => Item.frame (okTag :: f)) := by
+  have R := cfeed_refines dec
+  have L := specU_laws (loadOf dec) S P
+  have hsim := Consumer.run_ref R chunks Consumer.new [] (Or.inl ⟨rfl, rfl⟩)
+  obtain ⟨fs1, fs2, h', hsplit, hp, hheld, hdec⟩ :=
+    decode_prefix (loadOf dec) S P fs hfs fs.flatten [] (by simp)
+  have hind := refRun_chunk_independent L chunks [] (Or.inl rfl)
+    (by
+      apply AllOk_of_NoLimit
+      simp only [List.nil_append, hcut, hdec]
+      intro it hit
+      simp [frameItem] at hit
+      rcases hit with ⟨f, _, rfl⟩
+      simp)
+  simp only [List.nil_append, hcut] at hind
+  rw [hsim.1, hind, hdec]
+  -- all of `fs` is decoded: nothing can be held back at the end of the stream
+  have hfs2 : fs2 = [] := by
+    have hlen : fs.flatten.length = fs1.flatten.length + h'.length := by rw [hp]; simp
+    rw [hsplit] at hlen
+    simp only [List.flatten_append, List.length_append] at hlen
+    have hl2 : fs2.flatten.length = h'.length := by omega
+    rcases hheld with hh | ⟨f, fs', hf', hlt⟩
+    · subst hh
+      apply flatten_nil_of_pos fs2 (fun f hf => (hfs f (by simp [hsplit, hf])).pos)
+      exact List.eq_nil_of_length_eq_zero hl2
+    · rw [hf'] at hl2; simp at hl2; omega
+  subst hfs2
+  simp only [List.append_nil] at hsplit
+  subst hsplit
+  apply List.map_congr_left
+  intro f hf
+  simp [frameItem, hok f hf]
+
+/-- **C01, compressor framers, buffer-filling consumer — partial** (same gap as `C01_generic_compressor_roundtrip_partial`):
+    buffer of `sizehint` bytes, every accepted history of non-empty fitting fills. -/
+theorem C01_generic_compressor_buffered_partial (dec : Bytes → DecRes) (S : Stable (loadOf dec)) (P : Progress (loadOf dec))
+    (hint : Nat) (hhint : 0 < hint)
+    (fs : List Bytes) (hfs : ∀ f ∈ fs, IsFrame (loadOf dec) f) (hok : ∀ f ∈ fs, loadOf dec f = .ok f.length)
+    (fills : List Bytes) (hcut : fills.flatten = fs.flatten) (r : BufConsumer CState × List Item)
+    (hrun : BufConsumer.runFills cinit 0 (cbufCap hint) (cbfeed dec) BufConsumer.new fills = some r) :
+    r.2 = fs.map (fun f => Item.frame (okTag :: f)) ∧ r.1.crashed = false := by
+  have F := cfeed_fits dec S
+  rw [cbfeed_eq] at hrun
+  have hsim := runFills_sim (cbufCap hint) hhint F fills BufConsumer.new Consumer.new (sim_new _ _ _) r hrun
+  exact ⟨by rw [hsim.1, C01_generic_compressor_roundtrip_partial dec S P fs hfs hok fills hcut], hsim.2.1⟩
+
+end GenericFramers
+-- ==== END generic framers ====
 
 end EasyNet
 
